@@ -50,6 +50,15 @@ def persist_clause(cl, rng, n, replay):
             rec = rp.mk_record(*comp, dt, degrees_from_north=float(rng.choice([0., 15., 359.9])), meta={"station": "X1", "note": [1, 2, {"a": None}]})
             log = []
             _ops(rng, rec, log)
+            if j % 4 == 2:
+                # a sensor deployed off north and turned to north (exactly 0, given as 0 or as a full turn) as the last step before saving: the orientation restored is 0,
+                # not the deployed one (a stored 0 is a value, not a missing entry)
+                if rec.degrees_from_north == 0:
+                    rec.orient_sensor_to(float(rng.choice([30., 212.5])))
+                    log.append(("orient", "off north"))
+                a = float(rng.choice([0., 360., 720.]))
+                rec.orient_sensor_to(a)
+                log.append(("orient", a))
             fn = os.path.join(d, f"r{j}.json")
             rec.save(fn)
             back = hvsrpy.SeismicRecording3C.load(fn)
